@@ -586,6 +586,7 @@ func runC17(ctx *core.Ctx, idx int) *core.Result {
 		c17AddedImportProbe(res)
 		c17GeneratedExtentProbe(res)
 		c17BlockEndCommentProbe(res)
+		c17LinesThenImportsProbe(res)
 	}
 	paths := [][]engineRun{applyAPI(pt, srcs)}
 	pnames := []string{"api"}
@@ -753,6 +754,39 @@ func c17BlockEndCommentProbe(res *core.Result) {
 				}
 				if class, detail, _, _ := judgeComments(src, runs[0].Out); class != "" {
 					res.Violate("C17/"+class+"/in-front-of-a-replaced-declaration", detail, replayFiles(b[1], src, runs[0].Out))
+					return
+				}
+			}
+		}
+	}
+}
+
+// c17LinesThenImportsProbe: an earlier change removes code that spans several lines at the end of a declaration, a later
+// change removes imports from the middle of a group (go/ast's import surgery renumbers the lines below the group). The
+// doc comment of the untouched declaration that follows stays its doc comment.
+func c17LinesThenImportsProbe(res *core.Result) {
+	for nimp := 1; nimp <= 3; nimp++ {
+		for _, gap := range []string{"\n\n", "\n"} {
+			for _, nlines := range []int{2, 4} {
+				var olds, minus, uses []string
+				for i := 0; i < nimp; i++ {
+					olds = append(olds, fmt.Sprintf("\t\"old%d\"\n", i))
+					minus = append(minus, fmt.Sprintf("-import \"old%d\"\n", i))
+					uses = append(uses, fmt.Sprintf("old%d.X()", i))
+				}
+				args := strings.Repeat("\t\t\"a\",\n", nlines)
+				src := "package a\n\nimport (\n\t\"fmt\"\n" + strings.Join(olds, "") + ")\n\n// F does things.\nfunc F() {\n\tfmt.Println(\"keep\")\n\ttrace(\n" + args + "\t)\n}" + gap +
+					"// G is documented here.\nfunc G() int {\n\treturn 42 // the answer\n}\n\n// H uses the old packages.\nfunc H() int {\n\treturn " + strings.Join(uses, " + ") + "\n}\n"
+				pt := "# no tracing\n@@\nvar f identifier\n@@\n func f() {\n   ...\n-  trace(...)\n }\n\n# merged\n@@\n@@\n" + strings.Join(minus, "") + "+import \"newpkg\"\n\n-" + strings.Join(uses, " + ") + "\n+newpkg.Z()\n"
+				runs := applyAPI(pt, []string{src})
+				res.Evals++
+				res.Ob("lines-then-imports-probes", 1)
+				if runs[0].Pan != "" || runs[0].Err != "" || !strings.Contains(runs[0].Out, "newpkg.Z()") || strings.Contains(runs[0].Out, "trace(") {
+					res.Violate("C17/lines-then-imports-probe-failed", runs[0].Pan+runs[0].Err, replayFiles(pt, src, runs[0].Out))
+					return
+				}
+				if class, detail, _, _ := judgeComments(src, runs[0].Out); class != "" {
+					res.Violate("C17/"+class+"/lines-removed-then-imports-removed", detail, replayFiles(pt, src, runs[0].Out))
 					return
 				}
 			}
